@@ -190,8 +190,10 @@ def run(ctx):
     r16(ctx, core)
     # the reader skips the definition levels of its own files when the chunk's null_count is 0, so an exact
     # null tally is a necessary condition of the round trip (shared with C04)
-    from . import c04
+    from . import c04, c02, c03
     c04.r41(ctx, repo['writer'])
+    c02.r27(ctx, 'R1.7')
+    c03.r39(ctx, 'R1.8')
     from . import callsigs as _cs
     _cs.general_rules(ctx, 'R1', ['writer.write', 'writer.write_simple', 'writer.write_multi', 'writer.make_row_group', 'writer.make_part_file', 'writer.partition_on_columns', 'writer.make_metadata', 'writer.write_column', 'core', 'api.ParquetFile.to_pandas', 'api.ParquetFile.read_row_group_file'])
 
